@@ -8,6 +8,19 @@ ID = "C03"
 PROPS_FILE = "Props/C03.v"
 COQ_TARGETS = ["Harness/H03.vo"]
 ALLOWED_AXIOMS = []
+# second tie (translator): coq/Gen/Core.v is regenerated from the source text of C.REPO on every run and
+# coq/Tie/T03.v proves generated definition = hand model (harness/translate/py2coq_core.py)
+EXTRA_PROPS = ["Tie/T03.v"]
+
+
+def prebuild(ctx):
+    import os
+    import sys
+    sys.path.insert(0, os.path.join(C.VERIF, "harness", "translate"))
+    import py2coq_core
+    py2coq_core.prebuild(ctx, C, ["Archive.add"])
+
+
 META = {
     "level_text": "Machine-checked proof (Coq) about a literal model of Archive.add/append/extend/__iadd__ and nondominated(): for EVERY offered list "
                   "(any length, duplicates, twins, the same object offered twice) the archive contents equal, as a list, the offered list with exactly "
